@@ -35,7 +35,7 @@ structure Outcome where
 deriving Inhabited
 
 def initialLexer (R : RunEnv) (c : Case) : Lx :=
-  let lx0 : Lx := Lexer.new 0 c.m (bytes c.text)
+  let lx0 : Lx := Lexer.new 1 c.m (bytes c.text)
   match c.filter with
   | none => lx0
   | some f => lx0.withFilter R.E (some f)
